@@ -32,8 +32,12 @@ TECHNIQUE = ('bounded-exhaustive enumeration of configurations x the complete '
              'table of read-only / copy-returning entry points; canonical form '
              'and object identities of the input compared before/after')
 RULE = ('every DAG shape over {Config, Partial, positional Config, list, dict, '
-        'tuple} up to N nodes, leaves {short string, string longer than the '
-        'trimming threshold, value equal to a default}, with and without tags '
+        'tuple, Config of a callable that modifies the containers it receives, '
+        'stand-alone TaggedValue with / without value} up to N nodes, leaves '
+        '{short string, string longer than the trimming threshold, value equal '
+        'to a default; for the length-measuring entry points also strings of '
+        'exactly the threshold length / one less and values whose repr is '
+        'longer than their str}, with and without tags '
         'x every entry point of the API table (each with its option '
         'settings); distinct by (shape, tag variant, entry point); non-trivial '
         'when the shape has a shared or nested node')
@@ -56,6 +60,16 @@ MENU = ['cfg', 'par', 'cfgpos', 'list2', 'dict1', 'tuple1']
 ROOTS = ['cfg', 'par', 'cfgpos']
 LONG = 'long-' + 'x' * 90
 LEAVES = [LONG, 'dy', 'L1']
+# further leaf alphabets for the entry points that measure printed lengths
+# (thresholds used below: 30 and 20): strings of exactly the threshold
+# length and one less, text whose repr is longer than its str
+LEAFSETS = [LEAVES,
+            ['x' * 30, 'x' * 29, 'x' * 28],
+            ['a\n' * 12, __import__('pathlib').PurePosixPath('p' * 27), 'q'],
+            ['y' * 20, 'y' * 19, 'y' * 18]]
+LENGTH_APIS = ('visualize.trim_long_fields', 'graphviz.render(max_str_length)',
+               'as_str_flattened', 'graphviz.render', 'repr')
+MUT_MENU = ['cfgmut', 'cfg', 'list2', 'dict1', 'tv']
 NCHUNK = 48
 
 
@@ -80,21 +94,29 @@ def all_cases(b):
                                    root_kinds=ROOTS):
     for tagv in ('none', 'tags'):
       yield 'small', s, tagv
+  # callables that modify the containers they receive; stand-alone (unset)
+  # TaggedValues inside containers
+  ks3 = shapes.std_kinds(MUT_MENU)
+  for s in shapes.all_shapes(ks3, 3 if b['n'] == 2 else 4, 1,
+                             root_kinds=['cfgmut', 'cfg']):
+    if any(k in ('cfgmut', 'tv') for k, _ in s):
+      yield 'mut', s, 'none'
 
 
 _BY = {}
 
 
-def make(menu_name, shape, tagv, b):
-  menu = MENU if menu_name == 'main' else b['small_menu']
+def make(menu_name, shape, tagv, b, leafset=0):
+  menu = {'main': MENU, 'mut': MUT_MENU}.get(menu_name) or b['small_menu']
   key = tuple(menu)
   if key not in _BY:
     _BY[key] = {k.name: k for k in shapes.std_kinds(menu)}
-  objs = shapes.materialize(shape, _BY[key], LEAVES)
+  objs = shapes.materialize(shape, _BY[key], LEAFSETS[leafset])
   root = objs[-1]
   if tagv == 'tags':
     for o in objs:
-      if isinstance(o, fdl.Buildable):
+      if isinstance(o, fdl.Buildable) and not isinstance(
+          o, tagging.TaggedValueCls):
         names = _named(o)
         if names:
           fdl.add_tag(o, names[0], N.TagA)
@@ -300,14 +322,23 @@ def api_table():
 API = None
 
 
-def check_case(menu_name, shape, tagv, b, res, only=None):
+def check_case(menu_name, shape, tagv, b, res, only=None, leafsets=None):
   global API
   if API is None:
     API = api_table()
+  if leafsets is None:
+    leafsets = range(len(LEAFSETS)) if menu_name == 'main' else (0,)
+  for leafset in leafsets:
+    _check_case(menu_name, shape, tagv, b, res, only, leafset)
+
+
+def _check_case(menu_name, shape, tagv, b, res, only, leafset):
   for name, fn in API.items():
     if only and name != only:
       continue
-    cfg = make(menu_name, shape, tagv, b)
+    if leafset and name not in LENGTH_APIS:
+      continue
+    cfg = make(menu_name, shape, tagv, b, leafset)
     other = make_other(cfg)
     before_c = canon.canon_cfg(cfg)
     before_s = snapshot(cfg)
@@ -320,7 +351,8 @@ def check_case(menu_name, shape, tagv, b, res, only=None):
     res.outcomes[f'{name}:{outcome[:12]}'] += 1
     after_c = canon.canon_cfg(cfg)
     after_s = snapshot(cfg)
-    case = {'menu': menu_name, 'shape': shape, 'tags': tagv, 'api': name}
+    case = {'menu': menu_name, 'shape': shape, 'tags': tagv, 'api': name,
+            'leafset': leafset}
     if after_c != before_c:
       res.violation(
           f'C17/input-modified/{name}',
@@ -359,12 +391,13 @@ def replay(case):
   res = core.Result()
   b = bounds('thorough')
   shape = _shape(case['shape'])
-  cfg = make(case['menu'], shape, case['tags'], bounds('quick'))
+  cfg = make(case['menu'], shape, case['tags'], bounds('quick'),
+             case.get('leafset', 0))
   print('config:', cfg, '\napi:', case['api'])
   for tier in ('quick', 'thorough'):
     try:
       check_case(case['menu'], shape, case['tags'], bounds(tier), res,
-                 only=case['api'])
+                 only=case['api'], leafsets=(case.get('leafset', 0),))
     except Exception as e:  # pylint: disable=broad-except
       print('replay with', tier, 'bounds failed:', e)
   return res
